@@ -604,6 +604,16 @@ class C15(Property):
                        [S("11%d" % j) for j in range(10)] + [S("key:%d" % i) for i in range(10)])
             for first, second in (("1", "11"), ("11", "1"))
         ] + [
+            # lookups held between hashing the key and reading the ring (gated hash function) while a Remove /
+            # Add / re-Add with another weight of the owner, of another node, of a new node is started
+            self._conc(R, ["alpha", "beta", "gamma", "delta"],
+                       [[["add", 0], ["add", 1], ["add", 2]],
+                        [["remove", 0], ["add", 3], ["addw", 1, 10], ["add", 0], ["remove", 1], ["remove", 2], ["remove", 3],
+                         ["remove", 0], ["add", 1]]],
+                       [0] * 6 + [["gh", j, 1] for j in range(9)] + [1] * 6,
+                       [S("key:%d" % i) for i in range(6)] + [I(77), ST("user:5"), K("bytes", "raw1")] + [S("k%d" % i) for i in range(8)])
+            for R in (0, 150)
+        ] + [
             # Add(a) held inside the hashing of its virtual nodes while Remove(b) and Add(c) are started: b and c
             # have the same number of virtual nodes (the key count is the same before and after the swap);
             # then a swap with different counts, a lone Remove, a lone Add, a re-add of the held node itself
@@ -655,7 +665,10 @@ class C15(Property):
             # lookups that overlap a step (parked between slot lookup and member pick when the slot is shared)
             for pos in rng.sample(range(len(sched)), min(len(sched), rng.randint(2, 6))):
                 p = rng.randrange(min(8, len(shared))) if shared and rng.random() < 0.8 else rng.randrange(len(ps))
-                if ps[p]["kind"] == "str":
+                if rng.random() < 0.5:
+                    # held when Get evaluates the hash function on the key: any key, any slot
+                    sched[pos] = ["gh", rng.randrange(len(ps)), sched[pos]]
+                elif ps[p]["kind"] == "str":
                     sched[pos] = ["g", p, sched[pos]]
         if rng.random() < 0.5 and all(isinstance(st, int) for st in sched):
             # a call held inside its hashing while others run: rebuild the schedule around it.  Thread A contributes
@@ -1172,7 +1185,7 @@ class C15(Property):
                 if go:
                     fs.append("conc_lookup_overlapping_a_step")
                     if go[2]:
-                        fs.append("conc_lookup_parked_on_shared_slot")
+                        fs.append("conc_lookup_parked")
                     if go[3]:
                         fs.append("conc_step_ran_inside_lookup")
             if "remins" in (obs.get("res") or []):
